@@ -91,6 +91,198 @@ def fields_read(fx, cg, fid):
     return out
 
 
+def vec_elem_ty(ty):
+    import re
+    m = re.match(r"(?:&mut |&)?alloc::vec::Vec<(.+)>$", ty)
+    return m.group(1) if m else None
+
+
+def root_local(body, op, depth=0):
+    """the local a `&mut v` / `&v` operand borrows from (through reference temporaries)"""
+    pl = op_place(op)
+    if pl is None:
+        return None, None
+    l, proj = pl["l"], list(pl["p"])
+    for _ in range(4):
+        sd = body.single_def(l)
+        if sd and sd[2] == "assign" and sd[3]["k"] == "ref":
+            proj = list(sd[3]["place"]["p"]) + [x for x in proj if x != "deref"]
+            l = sd[3]["place"]["l"]
+        else:
+            break
+    return l, proj
+
+
+def fragment_facts(fx, cg, fn):
+    """what a top-level open function does with movie fragments, read off its MIR (names, temporaries and helper
+    functions do not matter):
+      decode        a MoofBox::read_box result is pushed into a local Vec<MoofBox>
+      offset        what is pushed into the local Vec<u64> next to it: 'loop-position' when it is the stream position the
+                    walk loop holds for the start of the current box (captured before BoxHeader::read), else its rendering
+      lockstep      the two local pushes lie on one straight path (each executes iff the other does)
+      attach        pushes to <track>.trafs and <track>.moof_offsets lie on one straight path, fed from those two vectors
+      lookup        the track is found with get_mut keyed by a value read from tfhd.track_id
+      unknown       Error::TrakNotFound is constructed
+      default       the fields the value stored into <track>.default_sample_duration is computed from
+    """
+    import c07
+    import loops as LP
+    from mir import strip_generics
+    body = body_of(fn)
+    facts = {"decode": False, "offset": None, "lockstep": False, "attach": False, "lookup": False, "unknown": False, "default": None}
+    pushes = [(b, t) for b, t in body.calls() if strip_generics(t["callee"].get("path") or "") == "alloc::vec::Vec::push" and len(t["args"]) == 2]
+    local_moof = local_off = None
+    for b, t in pushes:
+        l, proj = root_local(body, t["args"][0])
+        ety = vec_elem_ty(body.local_ty(l)) if l is not None and not [x for x in proj if x != "deref"] else None
+        if ety and ety.endswith("MoofBox"):
+            local_moof = (b, t, l)
+        elif ety == "u64":
+            local_off = (b, t, l)
+    if local_moof:
+        b, t, l = local_moof
+        vl = op_place(t["args"][1])
+        for b2, t2 in body.calls():
+            if (callee_path(t2["callee"]) or "").endswith("MoofBox as mp4box::ReadBox<&mut R>>::read_box") and vl is not None and c07.derives_from(body, vl["l"], t2["dest"]["l"]):
+                facts["decode"] = True
+    if local_off:
+        b, t, l = local_off
+        facts["offset"] = body.canon_op(t["args"][1])
+        # the walk loop containing the push and its header read
+        ls = LP.inventory(fx, fn["id"])
+        inl = [L for L in ls if b in L.blocks]
+        hdr = None
+        for L in inl:
+            for hb, ht in LP.calls_in(body, L.blocks):
+                if (callee_path(ht["callee"]) or "").endswith("BoxHeader::read"):
+                    hdr = (L, hb)
+        vl = op_place(t["args"][1])
+        if hdr and vl is not None:
+            L, hb = hdr
+            # the pushed value must be (a copy of) a value that is defined before the header read on every iteration and
+            # derives from stream_position(): either the loop variable re-assigned from stream_position at the end of each
+            # iteration or a position taken at the top of the iteration
+            src = vl["l"]
+            for _ in range(4):
+                sd = body.single_def(src)
+                if sd and sd[2] == "assign" and sd[3]["k"] == "use" and op_place(sd[3]["a"]) is not None and not op_place(sd[3]["a"])["p"]:
+                    src = op_place(sd[3]["a"])["l"]
+                else:
+                    break
+            defs = body.defs().get(src, [])
+            from_pos = []
+            for (db, di, kind, payload) in defs:
+                ops = [payload["a"]] if kind == "assign" and payload["k"] == "use" else []
+                for o in ops:
+                    pl = op_place(o)
+                    if pl is None:
+                        continue
+                    for pb, pt in body.calls():
+                        if strip_generics(pt["callee"].get("path") or "") == "std::io::Seek::stream_position" and c07.derives_from(body, pl["l"], pt["dest"]["l"]):
+                            # no arithmetic on the way
+                            from_pos.append((db, pb))
+            arith = False
+            seen = set()
+            stack = [src]
+            while stack:
+                x = stack.pop()
+                if x in seen:
+                    continue
+                seen.add(x)
+                for (db, di, kind, payload) in body.defs().get(x, []):
+                    if kind == "assign" and payload["k"] == "bin":
+                        arith = True
+                    if kind == "assign" and payload["k"] in ("use", "cast"):
+                        pl = op_place(payload["a"])
+                        if pl is not None:
+                            stack.append(pl["l"])
+                    if kind == "call":
+                        p_ = strip_generics(payload["callee"].get("path") or "")
+                        if p_.endswith("::box_start"):
+                            arith = True
+                        elif p_ in ("core::ops::try_trait::Try::branch",):
+                            pl = op_place(payload["args"][0])
+                            if pl is not None:
+                                stack.append(pl["l"])
+            # every definition is outside the span between the header read and the push (i.e. the value is the one held at
+            # the top of the iteration)
+            late = [db for (db, di, kind, payload) in defs if db in L.blocks and body.dominates(hb, db) and body.can_reach(db, b, avoid=[L.head])]
+            if len(defs) >= 1 and from_pos and not arith and not late:
+                facts["offset"] = "loop-position"
+    if local_moof and local_off:
+        b1, b2 = local_moof[0], local_off[0]
+        facts["lockstep"] = (body.dominates(b1, b2) and b1 in body.pdom().get(b2, ()) or b2 in body.pdom().get(b1, ())) or (body.dominates(b2, b1) and b2 in body.pdom().get(b1, ()) or b1 in body.pdom().get(b2, ()))
+    # attach
+    f_tr = f_off = None
+    for b, t in pushes:
+        l, proj = root_local(body, t["args"][0])
+        fields = [x["f"] for x in proj if isinstance(x, dict) and "f" in x]
+        if fields[-1:] == ["trafs"]:
+            f_tr = (b, t)
+        if fields[-1:] == ["moof_offsets"]:
+            f_off = (b, t)
+    if f_tr and f_off and local_moof and local_off:
+        b1, b2 = f_tr[0], f_off[0]
+        straight = (body.dominates(b1, b2) and b2 in body.pdom().get(b1, ())) or (body.dominates(b2, b1) and b1 in body.pdom().get(b2, ()))
+        v1, v2 = op_place(f_tr[1]["args"][1]), op_place(f_off[1]["args"][1])
+        fed = v1 is not None and v2 is not None and c07.derives_from(body, v1["l"], local_moof[2]) and c07.derives_from(body, v2["l"], local_off[2])
+        facts["attach"] = bool(straight and fed)
+    for b, t in body.calls():
+        p_ = strip_generics(t["callee"].get("path") or "")
+        if p_.endswith("HashMap::get_mut") and len(t["args"]) == 2 and "tfhd.track_id" in body.canon_op(t["args"][1]):
+            facts["lookup"] = True
+    for b in body.reach:
+        for st_ in body.stmts(b):
+            if st_["k"] == "assign" and st_["rv"]["k"] == "agg" and st_["rv"].get("variant") == "TrakNotFound":
+                facts["unknown"] = True
+            if st_["k"] == "assign" and st_["place"]["p"] and isinstance(st_["place"]["p"][-1], dict) and st_["place"]["p"][-1].get("f") == "default_sample_duration" and short(st_["place"]["p"][-1].get("adt") or "") == "Mp4Track" and st_["rv"]["k"] == "use":
+                facts["default"] = sorted(value_fields(fx, cg, body, st_["rv"]["a"]))
+    return facts
+
+
+def value_fields(fx, cg, body, op, depth=0):
+    """`Adt.field` names read along the backward slice of an operand, entering local helper functions"""
+    out = set()
+    seen = set()
+    pl0 = op_place(op)
+    stack = [pl0["l"]] if pl0 is not None else []
+    if pl0 is not None:
+        for p_ in pl0["p"]:
+            if isinstance(p_, dict) and p_.get("adt") in fx.adts:
+                out.add("%s.%s" % (short(p_["adt"]), p_["f"]))
+    while stack:
+        x = stack.pop()
+        if x in seen:
+            continue
+        seen.add(x)
+        for (db, di, kind, payload) in body.defs().get(x, []):
+            ops = []
+            if kind == "assign":
+                rv = payload
+                if rv["k"] in ("use", "cast", "un"):
+                    ops = [rv["a"]]
+                elif rv["k"] == "bin":
+                    ops = [rv["a"], rv["b"]]
+                elif rv["k"] == "agg":
+                    ops = rv["ops"]
+                elif rv["k"] in ("ref", "discr"):
+                    ops = [{"copy": rv["place"]}]
+            elif kind == "call":
+                ops = payload["args"]
+                g = callee_path(payload["callee"])
+                if g in fx.fns and depth < 2:
+                    out |= fields_read(fx, cg, g)
+            for o in ops:
+                pl = op_place(o)
+                if pl is None:
+                    continue
+                for p_ in pl["p"]:
+                    if isinstance(p_, dict) and p_.get("adt") in fx.adts:
+                        out.add("%s.%s" % (short(p_["adt"]), p_["f"]))
+                stack.append(pl["l"])
+    return out
+
+
 def run(fx, chk, tier):
     chk.rule("R-SIBLING", "the two fragment-attach implementations are the same algorithm up to self.moov <-> moov")
     chk.rule("R-COUNT", "the fragmented sample count accumulates trun.sample_count over every attached track fragment")
@@ -102,52 +294,22 @@ def run(fx, chk, tier):
     rf = fx.impl_fn("Mp4Reader<R>", None, "read_fragment_header")
     if not (chk.anchor("R-SIBLING", "Mp4Reader::read_header", rh) and chk.anchor("R-SIBLING", "Mp4Reader::read_fragment_header", rf)):
         return chk.finish("other", "anchors missing")
-    a1, a2 = moof_arm(rh), moof_arm(rf)
-    if chk.anchor("R-SIBLING", "moof arm in both top-level loops", a1 and a2):
-        d1, d2 = hirq.alpha(a1, REN), hirq.alpha(a2, REN)
-        chk.require(d1 == d2, "R-SIBLING", "moof-arm", d1[:160], "the two top-level loops handle a moof box differently:\n    read_header:          %s\n    read_fragment_header: %s" % (d1, d2), site_of(rf))
-        # lock-step pushes and offset captured before decoding
-        stmts = [hirq.dump(s, REN) for s in (a1.get("stmts", []) if a1.get("k") == "block" else [])]
-        idx_off = next((i for i, s in enumerate(stmts) if s.startswith("let moof_offset")), None)
-        idx_dec = next((i for i, s in enumerate(stmts) if "MoofBox::read_box" in s or "read_box" in s), None)
-        pushes = [s for s in stmts if ".push(" in s]
-        ok = idx_off is not None and idx_dec is not None and idx_off < idx_dec and len(pushes) == 2 and any("moofs.push" in p for p in pushes) and any("moof_offsets.push" in p for p in pushes)
-        chk.require(ok, "R-SIBLING", "moof-arm|lockstep", "offset taken before decoding; moofs and moof_offsets pushed together", "the moof arm does not capture the offset before decoding the box and push box and offset together: %s" % stmts, site_of(rh))
-        # R-OFFSET
-        for fn_ in (rh, rf):
-            arm = moof_arm(fn_)
-            # the loop's position variable = left operand of the enclosing `while <pos> < size`
-            posvar = None
-            for n, ps in hirq.walk(hirq.body_root(fn_)):
-                if n is arm:
-                    for p_ in reversed(ps):
-                        if p_.get("k") == "while" and p_["cond"].get("k") == "bin" and p_["cond"]["op"] == "Lt":
-                            posvar = hirq.path_str(p_["cond"]["l"])
-                            break
-            offlet = None
-            pushed = None
-            for m, _ in hirq.walk(arm):
-                if m.get("k") == "mcall" and m["m"] == "push" and (hirq.path_str(m["recv"]) or "").endswith("offsets") and m["args"]:
-                    pushed = hirq.path_str(m["args"][0])
-            for m, _ in hirq.walk(arm):
-                if m.get("k") == "let" and m["pat"].get("k") == "bind" and m["pat"]["name"] == pushed and "init" in m:
-                    offlet = m["init"]
-            src = hirq.path_str(offlet) if offlet is not None and offlet.get("k") == "path" else (hirq.expr_str(offlet) if offlet is not None else None)
-            chk.require(posvar is not None and src == posvar, "R-OFFSET", "moof_offset|" + fn_["name"], "recorded offset = loop position variable `%s`" % posvar,
-                        "the fragment offset is recorded as `%s`, not as the position where the box header starts (`%s`)" % (src, posvar), site_of(fn_))
-    l1, l2 = attach_loop(rh), attach_loop(rf)
-    if chk.anchor("R-SIBLING", "attach loop in both functions", l1 and l2):
-        d1, d2 = hirq.alpha(l1, REN), hirq.alpha(l2, REN)
-        d1n = hirq.dump(l1, REN)
-        chk.require(d1 == d2, "R-SIBLING", "attach-loop", d1[:200], "the two attach loops differ:\n    read_header:          %s\n    read_fragment_header: %s" % (d1, d2), site_of(rf))
-        need = ["tfhd.track_id", "get_mut", "default_sample_duration = default_sample_duration", "moof_offsets.push(moof_offset)", "trafs.push(", "TrakNotFound"]
-        need = ["tfhd.track_id", "get_mut", "default_sample_duration", "moof_offsets.push(", "trafs.push(", "TrakNotFound"]
-        missing = [x for x in need if x not in d1n]
-        chk.require(not missing, "R-SIBLING", "attach-loop|content", "lookup by tfhd.track_id, default duration, lock-step pushes, error on unknown id", "the attach loop lacks %s" % missing, site_of(rh))
-    s1, s2 = default_duration_source(rh), default_duration_source(rf)
-    chk.require(s1 == s2 == ["mvex.trex.default_sample_duration"], "R-SIBLING", "default-duration", "mvex.trex.default_sample_duration in both",
-                "the movie-level default duration comes from %s in read_header and %s in read_fragment_header" % (s1, s2), site_of(rf))
-
+    f1, f2 = fragment_facts(fx, cg, rh), fragment_facts(fx, cg, rf)
+    chk.analysed["fragment_facts"] = {"read_header": f1, "read_fragment_header": f2}
+    for nm, fct, fn_ in (("read_header", f1, rh), ("read_fragment_header", f2, rf)):
+        chk.require(fct["decode"] and fct["lockstep"], "R-SIBLING", "moof-arm|lockstep|" + nm, "decoded moof and its offset are pushed together",
+                    "%s does not push every decoded moof together with its offset (decode=%s, lockstep=%s)" % (nm, fct["decode"], fct["lockstep"]), site_of(fn_))
+        chk.require(fct["offset"] == "loop-position", "R-OFFSET", "moof_offset|" + nm, "recorded offset = the walk loop's position of the box start",
+                    "the fragment offset is recorded as `%s`, not as the position the walk loop holds for the start of the box header" % fct["offset"], site_of(fn_))
+        chk.require(fct["attach"] and fct["lookup"] and fct["unknown"], "R-SIBLING", "attach-loop|content|" + nm, "lookup by tfhd.track_id, lock-step pushes fed from the collected fragments, error on unknown id",
+                    "%s: attach step incomplete (fed lock-step pushes=%s, lookup by tfhd.track_id=%s, unknown-track error=%s)" % (nm, fct["attach"], fct["lookup"], fct["unknown"]), site_of(fn_))
+    core1 = {k: v for k, v in f1.items() if k != "default"}
+    core2 = {k: v for k, v in f2.items() if k != "default"}
+    chk.require(core1 == core2, "R-SIBLING", "agreement", "both entry points handle fragments alike", "the two fragment-attach implementations differ: read_header %s, read_fragment_header %s" % (core1, core2), site_of(rf))
+    for nm, fct, fn_ in (("read_header", f1, rh), ("read_fragment_header", f2, rf)):
+        d = fct["default"] or []
+        chk.require("TrexBox.default_sample_duration" in d, "R-SIBLING", "default-duration|" + nm, "movie-level default duration read from mvex.trex.default_sample_duration",
+                    "%s: the movie-level default duration is computed from %s, not from mvex.trex.default_sample_duration" % (nm, d), site_of(fn_))
     # ---------------- R-COUNT
     fcn = fx.impl_fn("Mp4Track", None, "sample_count")
     if chk.anchor("R-COUNT", "Mp4Track::sample_count", fcn):
